@@ -1,14 +1,14 @@
 (* C05 proofs: a fatal fault can only hit an operation before the metadata rename; all operations executed
-   up to there, and the writer's clean-up, leave the reader's answer unchanged. *)
+   up to there, and the writer's clean-up, are safe operations (C04) and leave the reader's answer unchanged. *)
 From Coq Require Import List ZArith NArith Bool Arith Lia.
 From GoProbe.Base Require Import CorrLib.
-From GoProbe.C04 Require Import Model Proofs Proofs2 Proofs3 Proofs4 Proofs5.
+From GoProbe.C04 Require Import Model Proofs ProofsCols Proofs2 Proofs3 Proofs4 Proofs5.
 From GoProbe.C05 Require Import Model.
 Import ListNotations.
 
-Lemma fatal_commit P p m w k o : Forall not_rename P ->
+Lemma fatal_commit p0 m0 P p m w k o : Forall (op_safe p0 m0) P ->
   nth_error (P ++ commit_ops p m w) k = Some o -> classify o = FFatal ->
-  Forall not_rename (firstn k (P ++ commit_ops p m w)).
+  Forall (op_safe p0 m0) (firstn k (P ++ commit_ops p m w)).
 Proof.
   intros F N C. rewrite firstn_app. apply Forall_app; split; [now apply Forall_firstn|].
   destruct (Nat.le_gt_cases k (length P)) as [LE|GT].
@@ -21,22 +21,44 @@ Proof.
       destruct i as [|[|[|i]]]; cbn in N; try discriminate; try (destruct i; discriminate); injection N as <-; discriminate.
 Qed.
 
-Lemma fatal_before_commit s a w k o : Inv s a ->
+(* the shape of a write-out's operation list in a state satisfying the invariant *)
+Lemma fatal_safe s a w k o : Inv s a ->
   nth_error (writeout_ops s w) k = Some o -> classify o = FFatal ->
-  Forall not_rename (firstn k (writeout_ops s w)).
+  exists p m, mstate s p m /\ Forall (op_safe p m) (firstn k (writeout_ops s w)).
 Proof.
-  intros I. unfold writeout_ops, writeout_run.
-  destruct (lookup (w_key w) (f_days s)) as [d|].
-  - destruct (d_meta d) as [[m|]|].
-    + destruct (meta_has_ts m (w_ts w)); cbn [fst].
-      * intros _ _. apply Forall_firstn. pre_tac.
-      * rewrite !app_assoc. apply fatal_commit. pre_tac.
-    + cbn [fst]. intros _ _. apply Forall_firstn. pre_tac.
-    + cbn [fst]. rewrite !app_assoc. apply fatal_commit. pre_tac.
-  - cbn [fst]. rewrite !app_assoc. apply fatal_commit. pre_tac.
+  intros I. pose proof (inv_lookup _ _ _ (w_key w) I) as IL.
+  unfold writeout_ops, writeout_run.
+  destruct (lookup (w_key w) (f_days s)) as [d|] eqn:L.
+  - set (p := {| dp_key := w_key w; dp_suf := d_suf d |}).
+    assert (DA : day_at s p = Some d) by (unfold day_at, p; cbn [dp_key dp_suf]; now rewrite L, otot_eqb_refl).
+    destruct (d_meta d) as [[m|]|] eqn:M.
+    + assert (MS : mstate s p m) by (eapply mstate_at; eauto). exists p, m. split; auto.
+      destruct (meta_has_ts m (w_ts w)); cbn [fst] in *.
+      * apply Forall_firstn. apply Forall_app; split; [apply safe_month|repeat constructor].
+      * rewrite !app_assoc in *. eapply fatal_commit; eauto.
+        rewrite <- !app_assoc. apply Forall_app; split; [apply safe_month|].
+        apply Forall_app; split; [repeat constructor|]. apply Forall_app; split; [apply safe_colops|apply safe_closes].
+    + exists p, new_meta. split; [intros d' D'; assert (d' = d) as -> by congruence; rewrite M; left|].
+      * (* undecodable metadata: excluded by the invariant *)
+        exfalso. destruct (lookup (w_key w) a).
+        -- destruct IL as [_ (_ & HM & _)]. congruence.
+        -- unfold visible in IL. rewrite M in IL. destruct (d_suf d); discriminate.
+      * cbn [fst]. apply Forall_firstn. apply Forall_app; split; [apply safe_month|repeat constructor].
+    + assert (MS : mstate s p new_meta) by (intros d' D'; assert (d' = d) as -> by congruence; right; auto).
+      exists p, new_meta. split; auto. cbn [fst] in *.
+      rewrite !app_assoc in *. eapply fatal_commit; eauto.
+      rewrite <- !app_assoc. apply Forall_app; split; [apply safe_month|].
+      apply Forall_app; split; [repeat constructor|]. apply Forall_app; split; [apply safe_colops|apply safe_closes].
+  - set (p := {| dp_key := w_key w; dp_suf := None |}).
+    assert (MS : mstate s p new_meta) by (intros d' D'; unfold day_at, p in D'; cbn [dp_key] in D'; rewrite L in D'; discriminate).
+    exists p, new_meta. split; auto. cbn [fst] in *.
+    rewrite !app_assoc in *. eapply fatal_commit; eauto.
+    rewrite <- !app_assoc. apply Forall_app; split; [apply safe_month|].
+    apply Forall_app; split; [apply safe_mkdir; auto|].
+    apply Forall_app; split; [repeat constructor|]. apply Forall_app; split; [apply safe_colops|apply safe_closes].
 Qed.
 
-Lemma cleanup_pre l : Forall not_rename (match tmp_created l with Some t => [OUnlink t] | None => [] end).
+Lemma cleanup_safe p m l : Forall (op_safe p m) (match tmp_created l with Some t => [OUnlink t] | None => [] end).
 Proof. destruct (tmp_created l); repeat constructor. Qed.
 
 (* the state after a fatally faulted write-out still represents the same abstract database *)
@@ -44,14 +66,15 @@ Lemma fault_keeps_inv s a w k o : Inv s a ->
   nth_error (writeout_ops s w) k = Some o -> classify o = FFatal ->
   snd (fault_run (writeout_ops s w) k) = false /\ Inv (apply_all s (fst (fault_run (writeout_ops s w) k))) a.
 Proof.
-  intros I N C. unfold fault_run. rewrite N, C. cbn [fst snd]. split; auto.
-  apply pre_run; auto. apply Forall_app; split; [eapply fatal_before_commit; eauto|apply cleanup_pre].
+  intros I N C. destruct (fatal_safe s a w k o I N C) as (p & m & MS & F).
+  unfold fault_run. rewrite N, C. cbn [fst snd]. split; auto.
+  apply (run_inv None p m); auto. apply Forall_app; split; [exact F|apply cleanup_safe].
 Qed.
 
 Lemma fault_safe s a w k o : Inv s a ->
   nth_error (writeout_ops s w) k = Some o -> classify o = FFatal ->
   snd (fault_run (writeout_ops s w) k) = false /\
-  reader_meta (apply_all s (fst (fault_run (writeout_ops s w) k))) = reader_meta s.
+  reader (apply_all s (fst (fault_run (writeout_ops s w) k))) = reader s.
 Proof.
   intros I N C. destruct (fault_keeps_inv s a w k o I N C) as [E I']. split; auto.
   now rewrite (reader_ok _ _ I'), (reader_ok _ _ I).
@@ -66,13 +89,71 @@ Inductive faulted : fs -> fs -> Prop :=
 Lemma faulted_inv s s' a : faulted s s' -> Inv s a -> Inv s' a.
 Proof. induction 1; auto. intros I. apply IHfaulted. eapply fault_keeps_inv; eauto. Qed.
 
-Lemma heals s s' a w : Inv s a -> faulted s s' ->
-  reader_meta s' = reader_meta s /\
-  reader_meta (apply_all s' (writeout_ops s' w)) = Ok (spec_read_m (adb_put a w)).
+Lemma heals s s' a w : Inv s a -> wf_w w -> faulted s s' ->
+  reader s' = reader s /\
+  reader (apply_all s' (writeout_ops s' w)) = Ok (spec_read_f (adb_put a w)).
 Proof.
-  intros I F. pose proof (faulted_inv _ _ _ F I) as I'. split.
+  intros I WF F. pose proof (faulted_inv _ _ _ F I) as I'. split.
   - now rewrite (reader_ok _ _ I'), (reader_ok _ _ I).
   - apply reader_ok. now apply wo_prefix.
+Qed.
+
+(* ------------------------------------------------------------------ errors the code drops *)
+(* operations that never change the state, whatever they return *)
+Definition noop (o : fsop) : Prop := match o with OClose _ | ORmdir _ | OSeek _ _ | OChmod _ => True | _ => False end.
+Lemma noop_apply s o : noop o -> fst (apply s o) = s.
+Proof. destruct o as [| | | | | |f|f| | | |f]; try contradiction; intros _; cbn; auto; destruct f; reflexivity. Qed.
+Lemma noop_all l : Forall noop l -> forall s, apply_all s l = s.
+Proof. induction 1 as [|o l N F IH]; intros s; [reflexivity|]. unfold apply_all; cbn [fold_left]. rewrite noop_apply by auto. apply IH. Qed.
+Lemma apply_all_cons s o l : apply_all s (o :: l) = apply_all (fst (apply s o)) l.
+Proof. reflexivity. Qed.
+Lemma split_nth {A} (l : list A) k o : nth_error l k = Some o -> l = firstn k l ++ o :: skipn (S k) l.
+Proof. revert k. induction l as [|x l IH]; intros [|k]; cbn; try discriminate.
+  - intros [= ->]; auto.
+  - intros H. f_equal. now apply IH.
+Qed.
+
+(* removing a temp file never changes what the reader sees *)
+Lemma day_blocks_cols d d' : d_cols d' = d_cols d -> forall bs prev, day_blocks d' prev bs = day_blocks d prev bs.
+Proof. intros E. induction bs as [|b bs IH]; intros prev; cbn [day_blocks]; auto. unfold read_col. rewrite E, IH. reflexivity. Qed.
+Lemma read_days_tmps k f l : (forall d, d_suf (f d) = d_suf d /\ d_meta (f d) = d_meta d /\ d_cols (f d) = d_cols d) ->
+  read_days (filter vis (upd k f l)) = read_days (filter vis l).
+Proof.
+  intros Hf. induction l as [|[k2 v2] r IH]; cbn [upd filter]; auto.
+  destruct (Hf v2) as (E1 & E2 & E3).
+  assert (V : vis (k2, f v2) = vis (k2, v2)) by (unfold vis, visible; cbn; now rewrite E1, E2).
+  assert (R : read_day (k2, f v2) = read_day (k2, v2)).
+  { unfold read_day. rewrite E1, E2. destruct (d_meta v2) as [[m|]|]; auto. destruct (m_blocks m) eqn:MB; auto.
+    now rewrite (day_blocks_cols v2 (f v2) E3). }
+  destruct (keqb k k2); cbn [filter].
+  - rewrite V. destruct (vis (k2, v2)); cbn [read_days]; auto. now rewrite R.
+  - destruct (vis (k2, v2)); cbn [read_days]; auto. now rewrite IH.
+Qed.
+Lemma unlink_reader s f : reader (fst (apply s (OUnlink f))) = reader s.
+Proof.
+  destruct f as [| | |p n]; cbn [apply fst]; auto.
+  destruct (day_at s p); cbn [fst]; auto. destruct (tmp_get n (d_tmps d)); cbn [fst]; auto.
+  unfold reader, upd_day; cbn [f_days]. fold vis. rewrite read_days_tmps; auto.
+Qed.
+
+(* a fault on an operation whose error the code drops: Write returns nil and the reader sees the write-out
+   completely - provided the operations after it are state-neutral (true for every write-out: the dropped
+   errors are the Close of the month listing, and the deferred Remove = unlinkat + unlinkat(AT_REMOVEDIR) at
+   the very end) *)
+Lemma dropped_commits s a w k o : Inv s a -> wf_w w ->
+  nth_error (writeout_ops s w) k = Some o -> classify o = FIgnored ->
+  (noop o \/ Forall noop (skipn (S k) (writeout_ops s w))) ->
+  snd (fault_run (writeout_ops s w) k) = true /\
+  reader (apply_all s (fst (fault_run (writeout_ops s w) k))) = Ok (spec_read_f (adb_put a w)).
+Proof.
+  intros I WF N C H. unfold fault_run. rewrite N, C. cbn [fst snd]. split; auto.
+  destruct (wo_prefix s a w I WF) as [_ IF]. rewrite <- (reader_ok _ _ IF).
+  rewrite (split_nth _ _ _ N) at 3. rewrite !apply_all_app.
+  destruct H as [H|H].
+  - rewrite apply_all_cons. now rewrite noop_apply.
+  - rewrite apply_all_cons. rewrite !(noop_all _ H).
+    destruct o as [dr|f|f|f|f ?|f ? ?|f|f|? ?|? ?|f|f]; try discriminate; try (destruct f; try discriminate).
+      all: first [now rewrite noop_apply | symmetry; apply unlink_reader].
 Qed.
 
 (* the failing directory rename: the writer reports an error although the write-out is committed *)
@@ -80,7 +161,7 @@ Lemma rendir_refuted : exists s w k o,
   s = hist_state fs_empty [ex_w 0 1700000100%Z] /\
   nth_error (writeout_ops s w) k = Some o /\ classify o = FAfterCommit /\
   snd (fault_run (writeout_ops s w) k) = false /\
-  reader_meta (apply_all s (fst (fault_run (writeout_ops s w) k))) <> reader_meta s.
+  reader (apply_all s (fst (fault_run (writeout_ops s w) k))) <> reader s.
 Proof.
   exists (hist_state fs_empty [ex_w 0 1700000100%Z]), (ex_w 1 1700000400%Z), (ex_k - 46).
   eexists. split; [reflexivity|]. split; [vm_compute; reflexivity|]. split; [reflexivity|]. split; [vm_compute; reflexivity|].
